@@ -261,8 +261,8 @@ class SpikeMixin:
             selector,
             self.__interp,
             self.__interp_kwargs,
-            self.__overbound,
             self.__tolerance,
+            self.__overbound,
             None,
         ).to(dtype=self.spike_.value.dtype, device=self.spike_.value.device)
 
